@@ -47,6 +47,7 @@ class Task:
             out["paths"] = I.paths
             out["solver_ms"] = I.solver_ms
             out["queries"] = I.queries
+            out["recheck"] = dict(I.recheck)
         except (Unsupported, ExtractionError) as e:
             out["undecided"] = f"{type(e).__name__}: {e}"
             try:
